@@ -16,10 +16,18 @@ def merge(a, b):
         if isinstance(v, dict):
             merge(a[k], v)
         elif isinstance(v, list):
-            cap = SAMPLE_CAP if k.startswith("samples") else VIOL_CAP
-            room = cap - len(a[k])
-            if room > 0:
-                a[k].extend(v[:room])
+            if k.startswith("samples"):
+                cap = SAMPLE_CAP
+            elif k == "violations" or k == "cases":
+                cap = VIOL_CAP
+            else:
+                cap = None                      # any other list (e.g. per-shard parts) is kept whole
+            if cap is None:
+                a[k].extend(v)
+            else:
+                room = cap - len(a[k])
+                if room > 0:
+                    a[k].extend(v[:room])
         elif isinstance(v, bool):
             a[k] = a[k] and v
         elif isinstance(v, (int, float)):
